@@ -406,6 +406,82 @@ def battery_history_sizes(seed, consts):
     return None
 
 
+def battery_decode_history(seed):
+    """'identical output no matter what was computed before' for the byte-string setters (decoders are where memo tables
+    and retained caller buffers live): in ONE process, sequences of decodes of *related* strings - the same caller buffer
+    overwritten in place between calls, and fresh buffers - where the second string is the first with two 64-bit words
+    swapped / rotated, the same bit flipped in two words, or only its first / middle / last byte changed (collisions of cheap
+    fingerprints and prefix keys); every result is compared with the stateless oracle (RFC 8032 decoding, value mod l)"""
+    rng = random.Random(seed)
+    encs = [ref.ed_encode(q) for q in bank(rng, 6)][:10]
+
+    def variants(c):
+        w = [c[8 * i:8 * i + 8] for i in range(4)]
+        out = [w[1] + w[0] + w[2] + w[3], w[0] + w[1] + w[3] + w[2], w[3] + w[1] + w[2] + w[0], w[1] + w[2] + w[3] + w[0]]
+        for (i, j, bit) in ((0, 1, 3), (2, 3, 60), (0, 3, 17)):
+            b = bytearray(c)
+            b[8 * i + bit // 8] ^= 1 << (bit % 8)
+            b[8 * j + bit // 8] ^= 1 << (bit % 8)
+            out.append(bytes(b))
+        for pos in (0, 15, 31):
+            b = bytearray(c)
+            b[pos] ^= 0x04
+            out.append(bytes(b))
+        return [v for v in out if v != c]
+    lines = []
+    for c1 in encs:
+        for c2 in variants(c1)[: 10]:
+            for reuse in (1, 0):
+                exp = []
+                for c in (c1, c2, c1):
+                    pt = ref.ed_decode(c)
+                    exp.append("" if pt is None else ref.ed_encode(pt).hex())
+                lines.append('{"%s", "%s", %d, [3]string{"%s", "%s", "%s"}},' % (c1.hex(), c2.hex(), reuse, exp[0], exp[1], exp[2]))
+    code = '''package edwards25519
+import ("testing"; "encoding/hex"; "bytes"; "math/big")
+type dh struct { c1, c2 string; reuse int; want [3]string }
+func TestVerif(t *testing.T) {
+ cases := []dh{
+%s
+ }
+ l, _ := new(big.Int).SetString("7237005577332262213973186563042994240857116359379907606001950938285454250989", 10)
+ for _, c := range cases {
+  b1, _ := hex.DecodeString(c.c1); b2, _ := hex.DecodeString(c.c2)
+  buf := make([]byte, 32)
+  seq := [][]byte{b1, b2, b1}
+  for i, cur := range seq {
+   var in []byte
+   if c.reuse == 1 { copy(buf, cur); in = buf } else { in = append([]byte{}, cur...) }
+   p, err := new(Point).SetBytes(in)
+   if c.want[i] == "" {
+    if err == nil { t.Fatalf("HIT Point.SetBytes(%%x) accepted in the sequence %%s,%%s,%%s (same buffer: %%d), expected an error", cur, c.c1, c.c2, c.c1, c.reuse) }
+   } else {
+    if err != nil || hex.EncodeToString(p.Bytes()) != c.want[i] { t.Fatalf("HIT Point.SetBytes(%%x) in the sequence %%s,%%s,%%s (same buffer: %%d): got err=%%v enc=%%x, expected %%s", cur, c.c1, c.c2, c.c1, c.reuse, err, func() []byte { if p == nil { return nil }; return p.Bytes() }(), c.want[i]) }
+   }
+   if !bytes.Equal(in, cur) { t.Fatalf("HIT Point.SetBytes modified its input") }
+   // scalar setters on the same strings (SetCanonicalBytes only for canonical values)
+   v := new(big.Int).SetBytes(rev(cur))
+   s, err2 := new(Scalar).SetCanonicalBytes(in)
+   if (v.Cmp(l) < 0) != (err2 == nil) { t.Fatalf("HIT Scalar.SetCanonicalBytes(%%x) err=%%v in a sequence of related inputs (same buffer: %%d)", cur, err2, c.reuse) }
+   if err2 == nil && !bytes.Equal(s.Bytes(), cur) { t.Fatalf("HIT Scalar.SetCanonicalBytes(%%x) = %%x in a sequence of related inputs (same buffer: %%d)", cur, s.Bytes(), c.reuse) }
+   wide := make([]byte, 64); copy(wide, in); copy(wide[32:], in)
+   sw, _ := new(Scalar).SetUniformBytes(wide)
+   vw := new(big.Int).SetBytes(rev(wide)); vw.Mod(vw, l)
+   if new(big.Int).SetBytes(rev(sw.Bytes())).Cmp(vw) != 0 { t.Fatalf("HIT Scalar.SetUniformBytes(%%x) wrong in a sequence of related inputs", wide) }
+  }
+ }
+}
+func rev(b []byte) []byte { r := make([]byte, len(b)); for i := range b { r[len(b)-1-i] = b[i] }; return r }
+''' % "\n".join(lines)
+    rc, out = native.go_test(code)
+    if rc != 0:
+        hit = [l_ for l_ in out.splitlines() if "HIT " in l_]
+        if hit:
+            return dict(what=hit[0].split("HIT ", 1)[1][:400], op="decode history")
+        raise RuntimeError("decode history battery did not run: " + out[-400:])
+    return None
+
+
 def battery_history_variants(seed):
     """'identical output no matter what was computed before', aimed at value-keyed caches: consecutive calls in one process
     whose point arguments are related - the same raw (X, Y) limbs with (Z, T) negated (a different valid point, P + (0,-1)),
